@@ -11,6 +11,7 @@
 #include <inttypes.h>
 
 static vh_rng_t rng;
+static unsigned long nv_total;
 static vh_key_t okey;
 static jwk_set_t *oset;
 static const jwk_item_t *oitem;
@@ -53,6 +54,25 @@ static void do_verify(long hist, jwt_checker_t *c, int is_signed, int64_t now, c
 	printf(",%d,%d]\n", rc, ef);
 	jwt_checker_error_clear(c);
 	free(tok);
+	/* the token this checker accepted last comes back (the very same string): a moment later, much later, or after the configuration calls
+	 * that the history made in between.  Every verification is judged by the clock and the configuration of its own moment */
+	{
+		static char *last_ok; static long last_hist = -1; static const jwt_checker_t *last_c; static int inside; static unsigned long nre;
+		if (!inside) {
+			inside = 1;
+			if (last_ok && last_hist == hist && last_c == c && strcmp(last_ok, payload)) {
+				nre++;
+				if ((nre % 3) == 0) do_verify(hist, c, is_signed, now, last_ok);
+			}
+			if (rc == 0) {
+				static const int64_t LATER[] = { 1, 2, 61, 3600, 2147483648LL };
+				char *keep = strdup(payload);
+				if ((nv_total++ % 3) == 0) do_verify(hist, c, is_signed, now + LATER[nv_total % 5], keep);
+				free(last_ok); last_ok = keep; last_hist = hist; last_c = c;
+			}
+			inside = 0;
+		}
+	}
 }
 static void do_leeway(long hist, jwt_checker_t *c, int claim, int64_t secs)
 {
